@@ -8,6 +8,8 @@ CONSTANTS
   NoOpnSnapshot = FALSE
   Kinds = {"multi", "batch2"}
   KeyChunks = 2
+  CutClasses = {"inkey", "between", "afterid", "aftersize"}
+  UnrecognisedCuts = {}
   TornTailFails = TRUE
   RoaringTwoWrites = TRUE
   RowOpAsync = TRUE
